@@ -295,6 +295,7 @@ func (p *c18) Init(tier string) {
 		if f.arity >= 0 {
 			p.cases = append(p.cases, c18case{fi, "arity", 0})
 		}
+		p.cases = append(p.cases, c18case{fi, "history", 0})
 	}
 }
 
@@ -303,6 +304,9 @@ func (p *c18) NumCases() int { return len(p.cases) }
 func (p *c18) Describe(i int) any {
 	c := p.cases[i]
 	f := &p.fns[c.fn]
+	if c.kind == "history" {
+		return map[string]any{"function": f.name, "kind": "history independence: a call returns the same value before and after every rejected or failing call of the same function"}
+	}
 	if c.kind == "arity" {
 		return map[string]any{"function": f.name, "kind": fmt.Sprintf("every argument count from 0 to %d except %d must be rejected", f.arity+2, f.arity)}
 	}
@@ -504,6 +508,10 @@ func (p *c18) RunCase(i int) *core.CaseResult {
 		}
 		return r
 	}
+	if c.kind == "history" {
+		p.runHistory(r, f)
+		return r
+	}
 	if c.first < 0 {
 		p.checkCall(r, f, []any{})
 		return r
@@ -551,9 +559,65 @@ func (p *c18) RunCase(i int) *core.CaseResult {
 	return r
 }
 
+// runHistory: built-in functions are pure.  For up to 40 calls on which the function succeeds and
+// every call on which it fails (wrong algorithm / base / type name, index out of range, wrong
+// argument count or kind), the successful call must return the same value before and after the
+// failing one.
+func (p *c18) runHistory(r *core.CaseResult, f *c18fn) {
+	n := f.arity
+	if n == -1 {
+		n = 2
+	}
+	var tuples [][]any
+	var rec func(args []any)
+	rec = func(args []any) {
+		if len(args) == n {
+			tuples = append(tuples, args)
+			return
+		}
+		for _, v := range p.domain(f, len(args)) {
+			rec(append(append([]any{}, args...), v))
+		}
+	}
+	rec(nil)
+	var good, bad [][]any
+	goodVal := map[int]string{}
+	for _, t := range tuples {
+		o := p.call(f, t)
+		r.Execs++
+		switch {
+		case o.Panic != "":
+		case o.Err != nil:
+			if len(bad) < 12 {
+				bad = append(bad, t)
+			}
+		default:
+			if len(good) < 40 {
+				goodVal[len(good)] = gq.Render(o.Rows)
+				good = append(good, t)
+			}
+		}
+	}
+	if f.arity >= 0 {
+		bad = append(bad, make([]any, f.arity+1))
+	}
+	for gi, g := range good {
+		for _, b := range bad {
+			p.call(f, b)
+			o := p.call(f, g)
+			r.Execs += 2
+			if got := gq.Render(o.Rows); o.Failed() || got != goodVal[gi] {
+				r.Fail("C18|"+f.name+"|history|value-depends-on-earlier-call", fmt.Sprintf("%s(%s) returned %s before, but %s (%v) after the failing call %s(%s)", f.name, gq.Render(g), goodVal[gi], got, o.Err, f.name, gq.Render(b)), map[string]any{"function": f.name, "args": g, "failing_call_before": b})
+				return
+			}
+			r.Nontrivial = true
+		}
+	}
+}
+
 func (p *c18) Meta() core.Meta {
 	return core.Meta{
-		Rule: "one case per (function, first argument): FIRST, LAST, ELEMENTAT, UNWIND, ARRAY, CONCAT, IF, TO_LOWER, TO_UPPER, CHANGETYPE, DATERANGE, CONSTANT, HASH, ENCODE(+DECODE) called through SQL (SELECT f(c0, c1, ...) AS v FROM t, arguments as columns) with every tuple over the 18-value set {NULL, true, false, 0, 1, -1, 1.5, '', 'a', 'Ab', 'é', '12', '2.5', [], [1], [1,[2,3],NULL,'x'], [[1],[2]], [[[1],2],3]} and per-position domains (indices -1..5 and 1.5, type names / algorithms / bases incl. case variants and unknown ones); variadic functions up to 3 (thorough 4) arguments; plus one arity case per fixed-arity function (every count 0..n+2 except n). Oracle: 5-line reference per function; hash = hex of the algorithm's length, identical on re-evaluation; DECODE(ENCODE(v,b),b) = v in two query shapes; CHANGETYPE string<->double round trips. non-trivial = the reference defines a value for the call",
+		Rule: "one case per (function, first argument): FIRST, LAST, ELEMENTAT, UNWIND, ARRAY, CONCAT, IF, TO_LOWER, TO_UPPER, CHANGETYPE, DATERANGE, CONSTANT, HASH, ENCODE(+DECODE) called through SQL (SELECT f(c0, c1, ...) AS v FROM t, arguments as columns) with every tuple over the 18-value set {NULL, true, false, 0, 1, -1, 1.5, '', 'a', 'Ab', 'é', '12', '2.5', [], [1], [1,[2,3],NULL,'x'], [[1],[2]], [[[1],2],3]} and per-position domains (indices -1..5 and 1.5, type names / algorithms / bases incl. case variants and unknown ones); variadic functions up to 3 (thorough 4) arguments; plus one arity case per fixed-arity function (every count 0..n+2 except n). Oracle: 5-line reference per function; hash = hex of the algorithm's length, identical on re-evaluation; DECODE(ENCODE(v,b),b) = v in two query shapes; CHANGETYPE string<->double round trips; history cases: a successful call returns the same value before and after every failing call of the same function. non-trivial = the reference defines a value for the call",
 		Assumptions: []string{
 			"the reference abstains where the statement is silent: non-array arguments to array functions, non-string arguments to string functions, non-integer indices, hashing/encoding of NULL and arrays, CONCAT of arrays, CHANGETYPE of booleans",
 			"ELEMENTAT on an empty array may return NULL or an error (the statement allows both readings)",
